@@ -150,6 +150,7 @@ type Machine struct {
 	inScope        bool
 	NoSlice        bool
 	SummarizeGFMul bool
+	Redirect       map[*ssa.Function]*ssa.Function // calls to key are executed as calls to value (harness stubs)
 	varCache       map[int][]*term.Term
 	asserted       []*term.Term
 	rng            *rand.Rand
